@@ -14,7 +14,18 @@ use std::sync::Arc;
 
 #[derive(Clone, Debug, Serialize, Deserialize)]
 pub enum Op {
-    Register { node: u8, ty: u8, status: u8, load: u8 },
+    Register {
+        node: u8,
+        ty: u8,
+        status: u8,
+        load: u8,
+        /// how long the node has been silent when it enters the history: index into SILENT_S
+        #[serde(default)]
+        silent: u8,
+    },
+    /// one pass of NodeRegistry::run_health_checks (the registry's own failure detector: nodes whose
+    /// last heartbeat is older than half / all of the timeout become suspected / failed)
+    HealthCheck,
     Heartbeat(u8),
     Drain(u8),
     SetLoad(u8, u8),
@@ -36,6 +47,7 @@ struct MNode {
     ty: u8,
     status: u8, // 0 healthy 1 suspected 2 failed 3 draining
     load: u8,
+    silent_s: u64,
 }
 impl MNode {
     fn eligible(&self) -> bool {
@@ -43,6 +55,10 @@ impl MNode {
     }
 }
 
+/// registry timeout and the silence ages used (far from the thresholds at timeout/2 and timeout, so
+/// that real elapsed milliseconds cannot flip a verdict; the heartbeat instant is a std Instant)
+const TIMEOUT_S: u64 = 120;
+const SILENT_S: [u64; 3] = [0, 80, 200];
 const NODES: u8 = 5;
 const SHARDS: u8 = 250;
 const POLL_BUDGET: u32 = 64;
@@ -52,14 +68,16 @@ fn node_id(n: u8) -> String {
 }
 
 pub fn exec(case: &Case) -> Outcome {
-    let rt = rt_plain();
+    // virtual clock: the failure detector's 5 s interval costs nothing
+    let rt = rt_paused();
     rt.block_on(async {
+        let mut health: Option<tokio::task::JoinHandle<()>> = None;
         let strategy = match case.strategy % 3 {
             0 => AssignmentStrategy::ConsistentHash,
             1 => AssignmentStrategy::RoundRobin,
             _ => AssignmentStrategy::LoadBased,
         };
-        let registry = Arc::new(NodeRegistry::new(30));
+        let registry = Arc::new(NodeRegistry::new(TIMEOUT_S));
         let assignment = Arc::new(ShardAssignment::new(registry.clone(), strategy));
         let router = DistributedWriteRouter::new(assignment.clone(), registry.clone());
         let mut model: BTreeMap<String, MNode> = BTreeMap::new();
@@ -71,7 +89,30 @@ pub fn exec(case: &Case) -> Outcome {
         let mut routes = 0u64;
         for (step, op) in case.ops.iter().enumerate() {
             match op {
-                Op::Register { node, ty, status, load } => {
+                Op::HealthCheck => {
+                    out.class("failure-detector-pass");
+                    match &health {
+                        None => {
+                            let r = registry.clone();
+                            health = Some(tokio::spawn(async move { r.run_health_checks().await }));
+                            // the interval's first tick is immediate
+                            tokio::time::sleep(std::time::Duration::from_millis(1)).await;
+                        }
+                        Some(_) => tokio::time::sleep(std::time::Duration::from_millis(5001)).await,
+                    }
+                    for m in model.values_mut() {
+                        if m.silent_s > TIMEOUT_S {
+                            if m.status == 0 || m.status == 1 {
+                                m.status = 2;
+                                out.class("node-failed-by-heartbeat-loss");
+                            }
+                        } else if m.silent_s > TIMEOUT_S / 2 && m.status == 0 {
+                            m.status = 1;
+                            out.class("node-suspected-by-heartbeat-loss");
+                        }
+                    }
+                }
+                Op::Register { node, ty, status, load, silent } => {
                     let id = node_id(*node);
                     let mut info = NodeInfo::new(
                         id.clone(),
@@ -89,13 +130,19 @@ pub fn exec(case: &Case) -> Outcome {
                         _ => NodeStatus::Draining,
                     };
                     info.load_percent = *load % 101;
+                    let mut silent_s = SILENT_S[*silent as usize % SILENT_S.len()];
+                    match std::time::Instant::now().checked_sub(std::time::Duration::from_secs(silent_s)) {
+                        Some(t) => info.last_heartbeat = t,
+                        None => silent_s = 0, // the machine has not been up that long
+                    }
                     registry.register_node(info).await;
-                    model.insert(id, MNode { ty: ty % 3, status: status % 4, load: *load % 101 });
+                    model.insert(id, MNode { ty: ty % 3, status: status % 4, load: *load % 101, silent_s });
                 }
                 Op::Heartbeat(n) => {
                     let id = node_id(*n);
                     registry.heartbeat(&id).await;
                     if let Some(m) = model.get_mut(&id) {
+                        m.silent_s = 0;
                         if m.status == 1 {
                             m.status = 0;
                         }
@@ -206,6 +253,9 @@ pub fn exec(case: &Case) -> Outcome {
             }
         }
         out.count("routes", routes);
+        if let Some(h) = health {
+            h.abort();
+        }
         out
     })
 }
@@ -214,7 +264,9 @@ fn op() -> impl Strategy<Value = Op> {
     let n = 0u8..NODES;
     prop_oneof![
         4 => (n.clone(), prop_oneof![3 => Just(0u8), 1 => Just(1u8), 2 => Just(2u8)], prop_oneof![6 => Just(0u8), 1 => 1u8..4], prop_oneof![4 => 0u8..90, 1 => 93u8..97, 1 => Just(100u8)])
-            .prop_map(|(node, ty, status, load)| Op::Register { node, ty, status, load }),
+            .prop_map(|(node, ty, status, load)| Op::Register { node, ty, status, load, silent: 0 }),
+        2 => (n.clone(), prop_oneof![3 => Just(0u8), 1 => Just(2u8)], prop_oneof![4 => 0u8..90, 1 => 93u8..97], 1u8..3).prop_map(|(node, ty, load, silent)| Op::Register { node, ty, status: 0, load, silent }),
+        2 => Just(Op::HealthCheck),
         1 => n.clone().prop_map(Op::Heartbeat),
         2 => n.clone().prop_map(Op::Drain),
         2 => (n.clone(), prop_oneof![2 => 0u8..90, 3 => 93u8..97, 1 => Just(100u8)]).prop_map(|(n, l)| Op::SetLoad(n, l)),
@@ -235,7 +287,7 @@ pub fn def() -> PropDef {
     PropDef {
         id: "C19",
         level: "exploration",
-        rule: "stateful: histories of <=30 (thorough 60) ops from {register(node<5, type, status, load incl. 94/95), heartbeat, drain, set-load, remove, rebalance, route(shard<6, or any of 250 shard ids), sweep = route each of the 250 shard ids once (every position on the ring, incl. the wrap-around segment)} for each of the three assignment strategies, against a reference model of the registry; every route_write runs under a 64-poll budget. Non-trivial = a shard was routed again after its assigned node had become ineligible/absent with no rebalance in between. Distinct = distinct canonical JSON of the history.",
+        rule: "stateful: histories of <=30 (thorough 60) ops from {register(node<5, type, status, load incl. 94/95), heartbeat, drain, set-load, remove, rebalance, register a node that has been silent for 80 / 200 s (registry timeout 120 s), one pass of the registry's own failure detector (run_health_checks: silent nodes become suspected / failed), route(shard<6, or any of 250 shard ids), sweep = route each of the 250 shard ids once (every position on the ring, incl. the wrap-around segment)} for each of the three assignment strategies, against a reference model of the registry; every route_write runs under a 64-poll budget. Non-trivial = a shard was routed again after its assigned node had become ineligible/absent with no rebalance in between. Distinct = distinct canonical JSON of the history.",
         assumptions: &[
             "tokio's cooperative budget makes a never-blocking async loop yield, so a poll-count budget detects non-termination deterministically",
             "single-threaded histories: no concurrent membership change during a route",
